@@ -13,7 +13,7 @@ ROOT = os.path.dirname(os.path.dirname(os.path.abspath(__file__)))
 REPO = os.environ.get("SBDF_REPO", "/repo")
 LEAN = os.path.join(ROOT, "lean")
 CACHE = os.path.join(ROOT, ".cache")
-EVID = os.path.join(ROOT, "evidence")
+EVID = os.environ.get("VERIF_EVIDENCE_DIR") or os.path.join(ROOT, "evidence")   # seed/mutant runs redirect this
 REPLAY = os.path.join(ROOT, ".cache", "replay")
 NCPU = min(16, os.cpu_count() or 4)
 
